@@ -34,19 +34,19 @@ class C13(Prop):
             "tiny time limits); every wrapper output is compared with env.step / env.reset computed side by side; distinct = distinct "
             "(ops, final states) digest; non-trivial = >= 3 steps and >= 1 automatic reset happened and was checked")
     assumptions = ["the reset key is accepted when it is any of split(key,2)[i], split(key,3)[i], fold_in(key,0/1) of the terminal state's key"]
-    quick_runs = 10
+    quick_runs = 6  # per shard; the quick tier runs two shards per configuration (one per next_obs_in_extras setting)
 
     def select_configs(self, adapter: Any, tier: str) -> List[Dict[str, Any]]:
         return wrapper_configs(adapter, tier)
 
     def shards(self, adapter, cfg, tier):
-        return 1 if tier == "quick" else 2
+        return 2
 
     def run_task(self, task: Dict[str, Any]) -> Dict[str, Any]:
         from jsim import wrapsim
 
         task = dict(task)
-        task.setdefault("B", 2 if task["tier"] == "quick" else [2, 3][task["shard"] % 2])
+        task.setdefault("B", [2, 3][task["shard"] % 2])
         task.setdefault("scan_len", 3)
         return wrapsim.run_task(self, task)
 
